@@ -360,3 +360,153 @@ Proof.
   split; [split; [reflexivity|intros row [<-|[<-|[<-|[]]]]; reflexivity]|].
   vm_compute. reflexivity.
 Qed.
+
+(* ======================================================================================
+   SOURCE TIE, second half of the property ("per prefix"; notes/C01_tie_report.md).  The same Python text
+   (PV.Gen.C01Src.sm_body = the WHOLE body of `_string_matching`, and the blocks sm_pre; sm_row0; sm_main; sm_fin), run in
+   the configuration of prefix_edit_distances / PrefixEditDistances: return_prf_dsts = True, exclude_last and padding as
+   given, return_mask = return_mistakes = False.  The torch calls mean what PV.C01.SrcRunP.ext01p g says: SrcRun.ext01
+   wherever it answers, plus the vocabulary of this path (PV.MiniTorch.OpsC01P); g is the content of the UNINITIALISED
+   table `torch.empty((H', N))` - every statement holds for every g.  H' = [TiePLoop.tsize H exclude_last] =
+   H + (0 if exclude_last else 1); [TieP.out_shape] / [TieP.out_pos]: shape of the returned table and row-major position of
+   entry (j, n) - (N x H') with (n, j) when batch_first, else (H' x N) with (j, n).
+   ====================================================================================== *)
+From PV Require MiniTorch.OpsC01P C01.SrcRunP C01.TiePLoop C01.TieP.
+
+(* ONE EXECUTION OF THE LOOP BODY of the function (hyp_idx = k) in this configuration, either exclude_last: `row` gets
+   Model.step_row (with that exclude_last) in every column and row k of `prefix_ers` gets that row gathered at ref_lens;
+   everything else the loop reads is unchanged *)
+Theorem c01_source_prefix_loop_body_is_step_row :
+  forall (g : nat -> MiniTorch.OpsC01.fx) (s : positive) (ci cd cs : Z) (R N H : nat) (rf hf : nat -> nat -> Z)
+         (rl hl : nat -> nat) (excl : bool) (vmult vnorm vwarn vpad vbf : MiniPy.Syntax.val),
+  (forall n, (n < N)%nat -> (rl n <= R)%nat) ->
+  forall (st : MiniPy.Interp.state) (k : nat) (lf : nat -> nat -> Z) (pf : nat -> nat -> MiniTorch.OpsC01.fx),
+  (1 <= k <= H)%nat -> (k < TiePLoop.tsize H excl)%nat ->
+  TiePLoop.body_pre_p s ci cd cs R N H rf hf rl hl excl vmult vnorm vwarn vpad vbf lf pf st ->
+  TieLib.runs_to
+    (TiePLoop.body_pre_p s ci cd cs R N H rf hf rl hl excl vmult vnorm vwarn vpad vbf
+       (fun i n => nth i (step_row ci cd cs (TieLoop.colf R rf n) (TieLoop.colf H hf n) (hl n) excl k
+                            (TieLoop.colf (S R) lf n)) 0)
+       (fun i n => if (i =? k)%nat
+                   then TieMath.zf s (nth (rl n) (step_row ci cd cs (TieLoop.colf R rf n) (TieLoop.colf H hf n) (hl n) excl k
+                                                    (TieLoop.colf (S R) lf n)) 0)
+                   else pf i n))
+    (TieP.run_loop_body_p g k st).
+Proof. exact TieP.prefix_loop_body_is_step_row. Qed.
+Print Assumptions c01_source_prefix_loop_body_is_step_row.
+
+(* THE WHOLE CALL, on the whole body of the function as one term: the returned tensor is Model.prefix_edit_distances, entry
+   for entry (Cost v as the float v / s, Ratio v d as (v / s) / d, Lit z - padding, 0/1 convention - as z), in the layout
+   asked for; any eos / include_eos / norm / batch_first / exclude_last / padding / warn, any costs c / s, any batch.
+   Hypotheses: the lists really are matrices; with an eos no zero-width tensor (torch.max over an empty dimension raises);
+   with exclude_last the hypothesis tensor is not empty (`prefix_ers[0] = ..` on a table without rows raises IndexError -
+   the model returns an empty table there: outside the input space of the correspondence, notes/C01_tie_report.md) *)
+Theorem c01_source_prefix_is_model :
+  forall (g : nat -> MiniTorch.OpsC01.fx) (s : positive) (c : cfg) (N R H : nat) (ref hyp : list (list Z)) (w : bool),
+  (0 < N)%nat -> Tie.wf_src (c_bf c) N R ref -> Tie.wf_src (c_bf c) N H hyp ->
+  (c_eos c <> None -> R <> 0%nat /\ H <> 0%nat) -> (c_excl c = true -> H <> 0%nat) ->
+  let T := TiePLoop.tsize H (c_excl c) in
+  exists out st',
+    TieP.run_prefix g s c N ref hyp w
+    = MiniPy.Interp.Ok (MiniTorch.OpsC01.enc_x (MiniTorch.OpsC07.mkTn (TieP.out_shape (c_bf c) T N) out)) st' /\
+    length out = (T * N)%nat /\
+    forall j n, (j < T)%nat -> (n < N)%nat ->
+      nth (TieP.out_pos (c_bf c) T N j n) out MiniTorch.OpsC01.FNaN =
+      TieWhole.val_fx s (entry (c_bf c) j n (prefix_edit_distances c N ref hyp)).
+Proof. exact TieP.prefix_is_model. Qed.
+Print Assumptions c01_source_prefix_is_model.
+
+(* the same for the block sequence sm_pre; sm_row0; sm_main; sm_fin *)
+Theorem c01_source_prefix_blocks_is_model :
+  forall (g : nat -> MiniTorch.OpsC01.fx) (s : positive) (c : cfg) (N R H : nat) (ref hyp : list (list Z)) (w : bool),
+  (0 < N)%nat -> Tie.wf_src (c_bf c) N R ref -> Tie.wf_src (c_bf c) N H hyp ->
+  (c_eos c <> None -> R <> 0%nat /\ H <> 0%nat) -> (c_excl c = true -> H <> 0%nat) ->
+  let T := TiePLoop.tsize H (c_excl c) in
+  exists out st',
+    TieP.run_prefix_blocks g s c N ref hyp w
+    = MiniPy.Interp.Ok (MiniTorch.OpsC01.enc_x (MiniTorch.OpsC07.mkTn (TieP.out_shape (c_bf c) T N) out)) st' /\
+    length out = (T * N)%nat /\
+    forall j n, (j < T)%nat -> (n < N)%nat ->
+      nth (TieP.out_pos (c_bf c) T N j n) out MiniTorch.OpsC01.FNaN =
+      TieWhole.val_fx s (entry (c_bf c) j n (prefix_edit_distances c N ref hyp)).
+Proof. exact TieP.prefix_blocks_is_model. Qed.
+Print Assumptions c01_source_prefix_blocks_is_model.
+
+(* composed with c01_prefix_edit_distances_correct - purely about the interpreted source: entry (j, n) of the returned
+   table is the value the property names for the length-j prefix of hypothesis n against reference n (each cut at its first
+   eos, that eos kept when include_eos and it is there): spec_value = the weighted Levenshtein distance, divided by the
+   reference length under norm (0/1 convention for an empty reference) - and the padding value from position
+   len(hypothesis n) + (0 if exclude_last else 1) on *)
+Theorem c01_source_prefix_is_spec :
+  forall (g : nat -> MiniTorch.OpsC01.fx) (s : positive) (c : cfg) (N R H : nat) (ref hyp : list (list Z)) (w : bool),
+  (0 < N)%nat -> Tie.wf_src (c_bf c) N R ref -> Tie.wf_src (c_bf c) N H hyp ->
+  (c_eos c <> None -> R <> 0%nat /\ H <> 0%nat) -> (c_excl c = true -> H <> 0%nat) ->
+  let T := TiePLoop.tsize H (c_excl c) in
+  exists out st',
+    TieP.run_prefix g s c N ref hyp w
+    = MiniPy.Interp.Ok (MiniTorch.OpsC01.enc_x (MiniTorch.OpsC07.mkTn (TieP.out_shape (c_bf c) T N) out)) st' /\
+    length out = (T * N)%nat /\
+    forall j n, (j < T)%nat -> (n < N)%nat ->
+      let rn := denote (c_eos c) (c_incl c) (seq_of (c_bf c) n ref) in
+      let hn := denote (c_eos c) (c_incl c) (seq_of (c_bf c) n hyp) in
+      nth (TieP.out_pos (c_bf c) T N j n) out MiniTorch.OpsC01.FNaN =
+      if (j <? length hn + (if c_excl c then 0 else 1))%nat
+      then TieWhole.val_fx s (spec_value (c_norm c) (c_ins c) (c_del c) (c_sub c) rn (firstn j hn))
+      else MiniTorch.OpsC01.z2f (c_pad c).
+Proof. exact TieP.prefix_is_spec. Qed.
+Print Assumptions c01_source_prefix_is_spec.
+
+(* without normalisation: the Levenshtein distance itself, in units of 1 / s *)
+Theorem c01_source_prefix_is_lev :
+  forall (g : nat -> MiniTorch.OpsC01.fx) (s : positive) (c : cfg) (N R H : nat) (ref hyp : list (list Z)) (w : bool),
+  (0 < N)%nat -> Tie.wf_src (c_bf c) N R ref -> Tie.wf_src (c_bf c) N H hyp ->
+  (c_eos c <> None -> R <> 0%nat /\ H <> 0%nat) -> (c_excl c = true -> H <> 0%nat) -> c_norm c = false ->
+  let T := TiePLoop.tsize H (c_excl c) in
+  exists out st',
+    TieP.run_prefix g s c N ref hyp w
+    = MiniPy.Interp.Ok (MiniTorch.OpsC01.enc_x (MiniTorch.OpsC07.mkTn (TieP.out_shape (c_bf c) T N) out)) st' /\
+    length out = (T * N)%nat /\
+    forall j n, (j < T)%nat -> (n < N)%nat ->
+      let rn := denote (c_eos c) (c_incl c) (seq_of (c_bf c) n ref) in
+      let hn := denote (c_eos c) (c_incl c) (seq_of (c_bf c) n hyp) in
+      nth (TieP.out_pos (c_bf c) T N j n) out MiniTorch.OpsC01.FNaN =
+      if (j <? length hn + (if c_excl c then 0 else 1))%nat
+      then TieMath.zf s (lev (c_ins c) (c_del c) (c_sub c) rn (firstn j hn))
+      else MiniTorch.OpsC01.z2f (c_pad c).
+Proof. exact TieP.prefix_is_lev. Qed.
+Print Assumptions c01_source_prefix_is_lev.
+
+(* the executable the harness evaluates on the prefix cases of every run IS that run (uninitialised table := NaN) *)
+Theorem c01_source_src_prefix_is_model :
+  forall (c : cfg) (scale : Z) (N R H : nat) (ref hyp : list (list Z)),
+  (0 < N)%nat -> Tie.wf_src (c_bf c) N R ref -> Tie.wf_src (c_bf c) N H hyp ->
+  (c_eos c <> None -> R <> 0%nat /\ H <> 0%nat) -> (c_excl c = true -> H <> 0%nat) ->
+  let T := TiePLoop.tsize H (c_excl c) in
+  exists out,
+    SrcRunP.src_prefix Gen.C01Src.sm_body c scale N ref hyp
+    = Some (Some (MiniTorch.OpsC07.mkTn (TieP.out_shape (c_bf c) T N) out)) /\
+    length out = (T * N)%nat /\
+    forall j n, (j < T)%nat -> (n < N)%nat ->
+      nth (TieP.out_pos (c_bf c) T N j n) out MiniTorch.OpsC01.FNaN =
+      TieWhole.val_fx (Z.to_pos scale) (entry (c_bf c) j n (prefix_edit_distances c N ref hyp)).
+Proof. exact TieP.src_prefix_is_model. Qed.
+Print Assumptions c01_source_src_prefix_is_model.
+
+(* non-vacuity: the batch of c01_nonvacuous (batch-first, eos = 9, include_eos, exclude_last, padding -100, costs 1/2, 1, 3/2)
+   meets the hypotheses, and the interpreted source returns the table of that example divided by 4 *)
+Example c01_source_prefix_nonvacuous :
+  let c := mkCfg (Some 9) true false true 2 4 6 (-100) true in
+  let ref := [[1; 2; 9; 5]; [9; 1; 1; 9]; [3; 3; 3; 3]] in
+  let hyp := [[1; 9; 7]; [2; 2; 2]; [3; 9; 9]] in
+  let q := fun a b => MiniTorch.OpsC01.Fq (QArith_base.Qmake a b) in
+  Tie.wf_src (c_bf c) 3 4 ref /\ Tie.wf_src (c_bf c) 3 3 hyp /\
+  SrcRunP.src_prefix Gen.C01Src.sm_body c 4 3 ref hyp
+  = Some (Some (MiniTorch.OpsC07.mkTn [3%nat; 3%nat]
+                  [q 3 1%positive; q 2 1%positive; q (-100) 1%positive;
+                   q 1 1%positive; q 3 2%positive; q 2 1%positive;
+                   q 4 1%positive; q 3 1%positive; q (-100) 1%positive])).
+Proof.
+  cbv zeta. split; [split; [reflexivity|intros row [<-|[<-|[<-|[]]]]; reflexivity]|].
+  split; [split; [reflexivity|intros row [<-|[<-|[<-|[]]]]; reflexivity]|].
+  vm_compute. reflexivity.
+Qed.
